@@ -385,22 +385,67 @@ class CallGraph:
         vals = []
         for n in walk_function(fi.node):
             if isinstance(n, ast.Assign) and any(isinstance(t, ast.Name) and t.id == name for t in n.targets):
+                if isinstance(n.value, ast.Call):
+                    r = self._returned_callables(fi, n.value, None, locals_, depth)
+                    if r is not None:
+                        vals.append(('resolved', r))
+                        continue
                 vals.append(n.value)
+            elif isinstance(n, ast.Assign) and len(n.targets) == 1 and isinstance(n.targets[0], ast.Tuple) \
+                    and isinstance(n.value, ast.Call) and not any(isinstance(x, ast.Starred) for x in n.targets[0].elts):
+                # a, b = helper(...): what the helper returns in that slot
+                for k, t in enumerate(n.targets[0].elts):
+                    if isinstance(t, ast.Name) and t.id == name:
+                        r = self._returned_callables(fi, n.value, k, locals_, depth)
+                        if r is None:
+                            return None
+                        vals.append(('resolved', r))
             elif isinstance(n, (ast.AugAssign, ast.For, ast.comprehension, ast.With, ast.NamedExpr)):
                 tgt = getattr(n, 'target', None)
                 if tgt is not None and any(isinstance(x, ast.Name) and x.id == name for x in ast.walk(tgt)):
                     return None
             elif isinstance(n, ast.Tuple) and isinstance(getattr(n, 'ctx', None), ast.Store) \
                     and any(isinstance(x, ast.Name) and x.id == name for x in n.elts):
-                return None
+                par = getattr(n, '_parent', None)
+                if not (isinstance(par, ast.Assign) and isinstance(par.value, ast.Call)):
+                    return None
         if not vals or name in _all_params(fi):
             return None
         out = []
         for v in vals:
-            r = self._callable_expr(fi, v, locals_, depth)
+            r = v[1] if isinstance(v, tuple) and v and v[0] == 'resolved' else self._callable_expr(fi, v, locals_, depth)
             if r is None:
                 return None
             out.extend(x for x in r if x not in out)
+        return out
+
+    def _returned_callables(self, fi, call, slot, locals_, depth=0):
+        """What a package function called here returns (in tuple slot `slot`, or as a whole when slot is None), when
+        every return statement of it returns a callable that can be told; None otherwise."""
+        if depth > 2:
+            return None
+        try:
+            g = self.resolve_static(fi, call.func, locals_)
+        except Exception:
+            g = None
+        if not isinstance(g, FuncInfo):
+            return None
+        rets = [n for n in walk_function(g.node) if isinstance(n, ast.Return)]
+        if not rets:
+            return None
+        out = []
+        for r in rets:
+            e = r.value
+            if slot is not None:
+                if not (isinstance(e, ast.Tuple) and slot < len(e.elts)):
+                    return None
+                e = e.elts[slot]
+            if e is None:
+                return None
+            got = self._callable_expr(g, e, self._locals(g), depth + 1)
+            if got is None:
+                return None
+            out.extend(x for x in got if x not in out)
         return out
 
     def _resolve_deferred(self):
